@@ -14,6 +14,7 @@
 """Adapter management
 """
 import itertools
+import threading
 import weakref
 
 from zope.interface import Interface
@@ -59,6 +60,13 @@ __all__ = [
 # ``tuple([t fon t in range(10)])``      ->  82ns
 # ``tuple(t for t in range(10))``        -> 177ns
 # ``tuple(map(lambda t: t, range(10)))`` -> 168ns
+
+
+# Serialises assignments of ``__bases__`` of registries and the updates of
+# their resolution orders. Verifying registries recompute their order
+# inside lookups (see ``VerifyingAdapterLookup.changed``), possibly while
+# another thread assigns ``__bases__``.
+_ro_lock = threading.RLock()
 
 
 class BaseAdapterRegistry:
@@ -186,8 +194,9 @@ class BaseAdapterRegistry:
 
         Subclasses must still call this method.
         """
-        self.__dict__['__bases__'] = bases
-        self._update_ro()
+        with _ro_lock:
+            self.__dict__['__bases__'] = bases
+            self._update_ro()
         self.changed(self)
 
     def _update_ro(self):
@@ -1040,8 +1049,12 @@ class VerifyingAdapterLookup(AdapterLookupBase, VerifyingBase):
         # the meantime, and those are part of our registry's resolution
         # order; it has to be brought up to date before the generations
         # along it are recorded.
-        self._registry._update_ro()
-        super().changed(originally_changed)
+        # This runs in lookup threads as well: without the lock, an order
+        # computed from bases that another thread is just replacing could
+        # be stored after (and so survive) that thread's assignment.
+        with _ro_lock:
+            self._registry._update_ro()
+            super().changed(originally_changed)
 
 
 @implementer(IAdapterRegistry)
